@@ -35,14 +35,25 @@ def sig_hetero_woodbury(f):
     return "hetero-woodbury-Da>Dy" in f.get("site", "") and p.get("Da", 0) > p.get("Dy", 0)
 
 
-def sig_hetero_batched_px(f):
+def sig_hetero_trunc_degenerate(f):
+    """step / rectified-linear classes on exactly degenerate parameters (all input weights zero, or the exactly collinear
+    construction): the result is NaN.  A finite but wrong value, another class or any other parameter does not match."""
+    import math
     p = f.get("params", {})
-    return "hetero-batched-px" in f.get("site", "") and p.get("R", 1) > 1
+    if p.get("kind") not in ("zero-weights", "collinear") or p.get("cls") not in ("heaviside", "relu"):
+        return False
+    if p["kind"] == "zero-weights" and any(abs(w) > 0 for row in p.get("W", [[1.0, 1.0]]) for w in row[1:]):
+        return False
+    got = f.get("got")
+    if got is None:
+        return False
+    flat = np.asarray(got, dtype=float).reshape(-1)
+    return flat.size > 0 and bool(np.all(~np.isfinite(flat)))
 
 
 SIGNATURES = {
     "hetero-woodbury-Da>Dy": (("hetero-woodbury-Da>Dy",), sig_hetero_woodbury),
-    "hetero-batched-px": (("hetero-batched-px",), sig_hetero_batched_px),
+    "hetero-trunc-degenerate": (("hetero-trunc-degenerate",), sig_hetero_trunc_degenerate),
     "set_y-normaliser-uses-Dx": (("set_y",), sig_set_y_normaliser),
     "evidence-offset-from-set_y": (("set_y", "evidence"), sig_evidence_offset),
 }
